@@ -57,6 +57,7 @@ TABLE: List[Entry] = [
     ("R-MARKER", None, "solution-forwarded:lossy-put", {"C11", "C12"}),
     ("R-MARKER", None, "solution-forwarded:deduplicated", {"C11", "C17"}),
     ("R-MARKER", None, "solution-forwarded", {"C01", "C02", "C11", "C12"}),  # C12: the union of the parts' solutions reaches the caller
+    ("R-MARKER", None, "one-marker-last", {"C11", "C12"}),  # a marker-shaped message sent early ends the collection of that part: the union is incomplete
     ("R-MARKER", None, "marker-recorded", {"C11", "C12"}),
     ("R-MARKER", None, "spawn", {"C11", "C12"}),  # a part that is never started (or is taken for dead) is missing from the union  # a healthy part reported dead: the union is never delivered
     ("R-MARKER", None, "completion-flags-fresh", {"C11", "C18"}),
